@@ -156,10 +156,10 @@ func (c *ctx) runTrieJob(j *trieJob, out chan<- batch) {
 		if verifier == "trie2" {
 			// the strict model verifier as the independent one, and the legacy-style verifier
 			// (felts only) on the same node set
-			add(check{line: "v2 0011 " + rootHex + " " + key + p.toks(hf), truth: truth, honest: true, independent: true,
+			add(check{line: "v2 00111 " + rootHex + " " + key + p.toks(hf), truth: truth, honest: true, independent: true,
 				sig: sig, replay: mk(sig, "none", -1, rootHex, key, p, true)})
 		}
-		add(check{line: "vL 0011 " + rootHex + " " + key + p.toks(hf), truth: truth, honest: true, independent: true,
+		add(check{line: "vL 00111 " + rootHex + " " + key + p.toks(hf), truth: truth, honest: true, independent: true,
 			sig: sig, replay: mk(sig, "none", -1, rootHex, key, p, true)})
 		if pvTail != "" {
 			// the model's prover on the rebuilt tree must return the same nodes in the same order
@@ -236,6 +236,7 @@ func (c *ctx) runTrieJob(j *trieJob, out chan<- batch) {
 				replay: mk(tsig, t.Kind, t.Node, t.Root, t.Key, t.Proof, thonest)}
 			switch {
 			case t.KeyPlus:
+				tc.line = c.modelLine(verifier, t.Root, "+"+t.Key, t.Proof, spec.Hash)
 				orig := tc.replay
 				tc.replay = func() any { v := orig().(verifyReplay); v.KeyPlus = true; return v }
 				kf := bitsToFelt(t.Key)
@@ -249,6 +250,7 @@ func (c *ctx) runTrieJob(j *trieJob, out chan<- batch) {
 					kf := bitsToFelt(t.Key)
 					tc.impl = realVerifyFelt(verifier, hf, &root, &kf, t.Proof, []time.Duration{15 * time.Second, 45 * time.Second})
 				} else {
+					tc.fuelOK = true
 					res.Hit("tamper:trie2:embed-plain:predicted-hang-not-run")
 				}
 			default:
